@@ -5,6 +5,7 @@ import GB.C10.OptionsProofs
 import GB.C10.FwdRules
 import GB.C10.StreamWitness
 import GB.C10.RespPathProofs
+import GB.C10.TwoTargets
 import GB.C09.Props
 import GB.Generated.Facts
 /-
@@ -1223,3 +1224,56 @@ theorem C10_success_selection_is_nested_model (path : Bytes) :
     simp [respFieldsDesc, List.map_map, Function.comp_def]
   rw [hn] at h
   exact h
+
+/-! ## rendering is history-free: sequences of calls over several targets through one marshaler (GB/C10/TwoTargets.lean)
+
+  One `StandardTranscoder` — by default with the process-wide `DefaultJSONMarshaler` — serves every target the router knows.
+  `JSONMarshaler.Marshal(types, …)` copies its options and sets the per-call resolver on the COPY (`TT.marshalUse false`),
+  so the marshaler carries no state from call to call. Tie: harness op `seq` (two run-time built targets with one detail
+  type each, sequences of successes and failures through `grpcbridge.NewWebBridge`), facts `c10MarshalOptsInit`,
+  `c10MarshalerSelfWrites`, `c10MarshalerSelfAddrs`. -/
+
+/-- **What a call renders is a function of (its status / message, the ROUTED target's resolver, the marshaler's
+    configuration) only** — for every sequence of earlier calls to any targets and every marshaler configuration:
+    the i-th response of a sequence is the response that call gets on its own; the marshaler is unchanged. -/
+theorem C10_rendering_history_free (m : TT.MState) (steps : List TT.Step) :
+    TT.runSeq false m steps = steps.map (fun s => TT.renderWith (m.resolver.getD s.tgt) s)
+    ∧ ∀ t, (TT.marshalUse false m t).1 = m :=
+  ⟨TT.runSeq_coded m steps, fun _ => rfl⟩
+
+/-- … with the default marshaler (no resolver override) that is the specification `TT.specOut`: every call is rendered
+    with the resolver of the target it was routed to — after any prefix of other calls. -/
+theorem C10_rendering_by_routed_target (pre : List TT.Step) (s : TT.Step) :
+    TT.runSeq false { resolver := none } (pre ++ [s]) = pre.map TT.specOut ++ [TT.specOut s] := by
+  rw [TT.runSeq_coded]
+  simp [TT.specOut]
+
+/-- **Decodable error body after any history**: a failure whose details are all declared by the routed target's
+    descriptors is answered with the google.rpc.Status (code, details) in the negotiated encoding, whatever was served
+    before — never the text/plain fallback. -/
+theorem C10_error_details_of_routed_target_decodable (pre : List TT.Step) (s : TT.Step)
+    (hfail : s.ok = false) (hknown : s.dets.all (TT.knows s.tgt) = true) :
+    (TT.runSeq false { resolver := none } (pre ++ [s])).getLast? = some (.status s.code s.dets) := by
+  rw [C10_rendering_by_routed_target]
+  simp [TT.specOut, TT.renderWith, hfail, hknown]
+
+/-- kernel-checked witness for the variant that fills `m.MarshalOptions.Resolver` in place (seeded change C10-m1 of
+    round 6): after ANY call to target A, a failure of target B with B's own detail type loses its Status body; the
+    coded marshaler renders it. Single-target sequences agree. -/
+theorem C10_sticky_resolver_fails :
+    TT.runSeq true { resolver := none } [⟨.A, false, 5, []⟩, ⟨.B, false, 9, [.b]⟩] = [.status 5 [], .fallback 9]
+    ∧ TT.runSeq false { resolver := none } [⟨.A, false, 5, []⟩, ⟨.B, false, 9, [.b]⟩] = [.status 5 [], .status 9 [.b]]
+    ∧ TT.runSeq true { resolver := none } [⟨.A, true, 0, []⟩, ⟨.B, false, 9, [.b]⟩] = [.msg, .fallback 9]
+    ∧ TT.runSeq true { resolver := none } [⟨.B, false, 5, []⟩, ⟨.B, false, 9, [.b]⟩]
+        = TT.runSeq false { resolver := none } [⟨.B, false, 5, []⟩, ⟨.B, false, 9, [.b]⟩] := by
+  decide
+
+/-- facts tie (extract/c10.go `c10marshaler`, go/ast over transcoding/json.go, regenerated on every run):
+    `Marshal` defines `opts` as `m.MarshalOptions` — a struct copied BY VALUE — and the only `.Resolver` it assigns is
+    `opts.Resolver = types` on that copy; no method of `*JSONMarshaler` assigns to anything rooted at its receiver, and
+    none takes the address of a receiver field (so no per-call value can be written into the shared instance). -/
+theorem C10_facts_marshaler_stateless :
+    GB.Generated.c10MarshalOptsInit = [("opts", "m.MarshalOptions"), ("opts.Resolver", "types")] ∧
+    GB.Generated.c10MarshalerSelfWrites = [] ∧
+    GB.Generated.c10MarshalerSelfAddrs = [] := by
+  decide
